@@ -78,7 +78,8 @@ CONSTANTS NT,            \* temperature indices 1..NT (distinct temperatures ins
           KindChoices,   \* set of <<kind of component 1, kind of component 2>>
           TempChoices,   \* set of <<Tin1, Thot1, Tin2, Thot2>> at construction
           LinkPairs,     \* set of <<c, d, c2, d2>> : dimension d of c may be linked to dimension d2 of c2
-          RampSteps      \* numbers of tiny steps a Ramp may take
+          RampSteps,     \* numbers of tiny steps a Ramp may take
+          AuxChoices(_)  \* kind pair -> set of <<aux of component 1, aux of component 2>> at construction
 
 Base      == 1..2                                \* the two constructed components
 Comp      == 1..3                                \* 3 = the duplicate made by Copy (exists iff src # 0)
@@ -90,9 +91,14 @@ Kinds     == {"solid", "inert", "fluid", "void", "custom"}
 NA        == 2 * NT
 Zero      == MZero
 
-VARIABLES kind, Tin, T0, T, p, nd, src, act, err
-state == <<kind, Tin, T0, T, p, nd, src>>
-Vars  == [kind |-> kind, Tin |-> Tin, T0 |-> T0, T |-> T, p |-> p, nd |-> nd, src |-> src]
+\* aux[c] = which auxiliary density vectors the component carries besides numberDensities: p.detailedNDens (d) and
+\* p.pinNDens (p), each set or None; an[c] = the factor accumulated on them (changeNDensByFactor ->
+\* _changeOtherDensParamsByFactor multiplies every vector that is not None by the same factor as numberDensities)
+VARIABLES kind, Tin, T0, T, p, nd, src, aux, an, act, err
+state == <<kind, Tin, T0, T, p, nd, src, aux, an>>
+Vars  == [kind |-> kind, Tin |-> Tin, T0 |-> T0, T |-> T, p |-> p, nd |-> nd, src |-> src, aux |-> aux, an |-> an]
+NoAux == [d |-> FALSE, p |-> FALSE]
+AuxAll == {[d |-> a, p |-> b] : a, b \in BOOLEAN}
 Live  == IF src = 0 THEN Base ELSE Comp
 Orig(c) == IF c = 3 THEN (IF src = 0 THEN 1 ELSE src) ELSE c     \* whose material / table values a component has
 Atom(c, t) == (Orig(c) - 1) * NT + t
@@ -158,6 +164,8 @@ Obs == [c \in Comp |->
            T    |-> T[c],
            tef  |-> Pr(TEFQ(c)),
            nd   |-> MVec(nd[c], NA),
+           aux  |-> aux[c],
+           an   |-> MVec(an[c], NA),
            hot  |-> [d \in Dim |-> Pr(Hot(c, d))],
            cold |-> [d \in Dim |-> Pr(Cold(c, d))],
            at   |-> [t \in Temp |-> [d \in Dim |-> Pr(Q(c, d, t, FALSE))]],
@@ -175,7 +183,8 @@ SetTemperature(c, t) ==
     /\ c \in Live
     /\ T'  = [T EXCEPT ![c] = t]
     /\ nd' = [nd EXCEPT ![c] = MAdd(@, DensityReduction(c, T[c], t))]
-    /\ UNCHANGED <<kind, Tin, T0, p, src>>
+    /\ an' = [an EXCEPT ![c] = MAdd(@, DensityReduction(c, T[c], t))]     \* every density vector, the same factor
+    /\ UNCHANGED <<kind, Tin, T0, p, src, aux>>
     /\ Ok([n |-> "SetTemperature", c |-> c, t |-> t])
 
 \* k calls of setTemperature through temperatures outside the table, the last one to table temperature t (Composes)
@@ -183,7 +192,8 @@ Ramp(c, t, k) ==
     /\ c \in Live /\ k \in RampSteps
     /\ T'  = [T EXCEPT ![c] = t]
     /\ nd' = [nd EXCEPT ![c] = MAdd(@, DensityReduction(c, T[c], t))]
-    /\ UNCHANGED <<kind, Tin, T0, p, src>>
+    /\ an' = [an EXCEPT ![c] = MAdd(@, DensityReduction(c, T[c], t))]     \* every density vector, the same factor
+    /\ UNCHANGED <<kind, Tin, T0, p, src, aux>>
     /\ Ok([n |-> "Ramp", c |-> c, t |-> t, k |-> k])
 
 \* setDimension(d, value(c,d,v), retainLink=retain, cold=cold)
@@ -200,7 +210,7 @@ SetDim(c, d, v, cold, retain) ==
           THEN Refuse("RuntimeError", a)            \* raised before self.p[key] = val
           ELSE /\ p' = [p EXCEPT ![tc][td] = [k |-> "v", bc |-> c, bd |-> d, b |-> v,
                                               e |-> IF sc THEN MNeg(TEF(tc, T[tc], Tin[tc])) ELSE Zero]]
-               /\ UNCHANGED <<kind, Tin, T0, T, nd, src>>
+               /\ UNCHANGED <<kind, Tin, T0, T, nd, src, aux, an>>
                /\ Ok(a)
 
 RECURSIVE Reaches(_, _, _, _, _)
@@ -214,7 +224,7 @@ SetLink(c, d, c2, d2) ==
     /\ c \in Live /\ c2 \in Base /\ <<Orig(c), d, c2, d2>> \in LinkPairs
     /\ ~Reaches(c2, d2, c, d, 2 * Cardinality(MutDim))
     /\ p' = [p EXCEPT ![c][d] = [k |-> "l", c |-> c2, d |-> d2]]
-    /\ UNCHANGED <<kind, Tin, T0, T, nd, src>>
+    /\ UNCHANGED <<kind, Tin, T0, T, nd, src, aux, an>>
     /\ Ok([n |-> "SetLink", c |-> c, d |-> d, c2 |-> c2, d2 |-> d2])
 
 \* new = copy.copy(component c): __copy__ = unlink ; deepcopy ; put the same links back on both
@@ -223,16 +233,18 @@ Copy(c) ==
     /\ src' = c
     /\ kind' = [kind EXCEPT ![3] = kind[c]] /\ Tin' = [Tin EXCEPT ![3] = Tin[c]] /\ T0' = [T0 EXCEPT ![3] = T0[c]]
     /\ T' = [T EXCEPT ![3] = T[c]] /\ nd' = [nd EXCEPT ![3] = nd[c]]
+    /\ aux' = [aux EXCEPT ![3] = aux[c]] /\ an' = [an EXCEPT ![3] = an[c]]      \* deepcopy duplicates the arrays
     /\ p' = [p EXCEPT ![3] = p[c]]          \* values duplicated; link entries are the same (component, dimension) pairs
     /\ Ok([n |-> "Copy", c |-> c])
 
 Init ==
-    /\ \E k \in KindChoices : kind = [c \in Comp |-> IF c = 3 THEN "custom" ELSE k[c]]
+    /\ \E k \in KindChoices : /\ kind = [c \in Comp |-> IF c = 3 THEN "custom" ELSE k[c]]
+                              /\ \E a \in AuxChoices(k) : aux = [c \in Comp |-> IF c = 3 THEN NoAux ELSE a[c]]
     /\ \E tc \in TempChoices : /\ Tin = [c \in Comp |-> IF c = 3 THEN 1 ELSE tc[2 * c - 1]]
                                /\ T0  = [c \in Comp |-> IF c = 3 THEN 1 ELSE tc[2 * c]]
     /\ T = T0
     /\ p = [c \in Comp |-> [d \in MutDim |-> Nominal(c, d)]]
-    /\ nd = [c \in Comp |-> Zero]
+    /\ nd = [c \in Comp |-> Zero] /\ an = [c \in Comp |-> Zero]
     /\ src = 0
     /\ act = [n |-> "Init"] /\ err = ""
 
@@ -252,7 +264,7 @@ IsEntry(x) == \/ /\ DOMAIN x = {"k", "bc", "bd", "b", "e"} /\ x.k = "v" /\ x.bc 
 TypeOK == /\ src \in 0..2
           /\ kind \in [Comp -> Kinds] /\ Tin \in [Comp -> Temp] /\ T0 \in [Comp -> Temp] /\ T \in [Comp -> Temp]
           /\ \A c \in Comp : \A d \in MutDim : IsEntry(p[c][d])
-          /\ \A c \in Comp : MIsVec(nd[c], NA, 2)
+          /\ \A c \in Comp : MIsVec(nd[c], NA, 2) /\ MIsVec(an[c], NA, 2) /\ aux[c] \in AuxAll
           /\ err \in {"", "RuntimeError"}
 
 \* no cyclic links: every read terminates
@@ -261,6 +273,10 @@ LinksAcyclic == \A c \in Live, d \in MutDim : p[c][d].k = "l" => ~Reaches(p[c][d
 \* "through any sequence of intermediate temperatures ... the end state depends only on the final temperature":
 \* the accumulated number-density factor equals the factor of the direct jump Thot(construction) -> T
 PathIndependent == \A c \in Live : nd[c] = DensityReduction(c, T0[c], T[c])
+
+\* mass conservation of every inventory the component carries: the auxiliary density vectors (detailed, pin-wise) are
+\* scaled by exactly the factors numberDensities is scaled by, whichever of them are set
+AuxScaleWithDensities == \A c \in Live : an[c] = nd[c]
 
 \* "its number densities shrink by the same factor": relative to construction, nd = (f(T0)/f(T))^2 for solids
 DensityShrinksBySquare ==
@@ -323,7 +339,7 @@ InertRefusesOffInput ==
 \* a refused call leaves everything as it was
 RefusalsChangeNothing == [][err' # "" => UNCHANGED state]_<<state, act, err>>
 \* construction parameters never change, the duplicate stays the duplicate of its source
-ConstructionFixed == [][/\ \A c \in Live : kind'[c] = kind[c] /\ Tin'[c] = Tin[c] /\ T0'[c] = T0[c]
+ConstructionFixed == [][/\ \A c \in Live : aux'[c] = aux[c] /\ kind'[c] = kind[c] /\ Tin'[c] = Tin[c] /\ T0'[c] = T0[c]
                         /\ (src # 0 => src' = src)]_<<state, act, err>>
 
 \* why intermediate temperatures do not matter: for ARBITRARY temperatures a, m, b (atoms are abstract positive reals)
@@ -336,7 +352,7 @@ Composes == \A c \in Live : \A a, m, b \in Temp :
 \* components themselves (LinkEquality then makes it follow them for ever), and the source is untouched
 CopyIsFaithful ==
     act.n = "Copy" =>
-        /\ T[3] = T[src] /\ nd[3] = nd[src] /\ kind[3] = kind[src] /\ Tin[3] = Tin[src]
+        /\ T[3] = T[src] /\ nd[3] = nd[src] /\ an[3] = an[src] /\ aux[3] = aux[src] /\ kind[3] = kind[src] /\ Tin[3] = Tin[src]
         /\ \A d \in Dim : Hot(3, d) = Hot(src, d) /\ Cold(3, d) = Cold(src, d)
 CopyLeavesOthers == [][act'.n = "Copy" => \A c \in Base : T'[c] = T[c] /\ nd'[c] = nd[c] /\ p'[c] = p[c]]_<<state, act, err>>
 =====================================================================================================
